@@ -4,6 +4,7 @@
 // Streams (see docs/notes/C01.md):
 //   cycle/...        random clusters, one cycle (shared generator sched.GenCycle)
 //   f10/...          directed: `allocate` twice around a kept (pipelined-only) statement (DESIGN 7 F10)
+//   roles/...        directed: role minimums in force, the short role(s) fit only FutureIdle (Releasing pods)
 //   next/...         consecutive cycles: the binds of a cycle are fed back as Bound/Running pods
 //   ready/...        pure readiness: random JobInfos -> ssn.JobReady/JobPipelined/JobStarving/JobValid (selector 2)
 package main
@@ -59,6 +60,7 @@ func main() {
 	h.Gen = func(rng *vh.Rng, n int, emit func(id string, sel int, in []int64, kind string, nontrivial bool, desc any)) {
 		base.Gen(rng, n, emit)
 		genF10(rng, max(2, n/30), emit)
+		genRoles(rng, max(6, n/12), emit)
 		genNext(rng, max(2, n/6), emit)
 		genReady(rng, max(20, n*3), emit)
 	}
@@ -167,6 +169,109 @@ func genF10(rng *vh.Rng, n int, emit func(id string, sel int, in []int64, kind s
 		kind := fmt.Sprintf("f10/actions=%v", acts)
 		emit(fmt.Sprintf("f10-%d", i), 1, spec.Enc(sched.EpsUnits), kind, true,
 			map[string]any{"directed": "kept statement then second allocate", "actions": acts})
+	}
+}
+
+// ---------- directed: a short role that is only pipelined ----------
+
+// specRoles: minTaskMember in force (sum of role minimums <= minMember); the LONG role (role 1) has
+// at least minMember replicas that fit the idle cpu, so the allocated pods alone reach minMember;
+// the tasks of the SHORT role(s) (roles 2, 3) are larger than what stays idle and fit only
+// FutureIdle thanks to Releasing pods: they are Pipelined.  JobReady must be false (CheckTaskReady:
+// a pipelined pod does not occupy its role's slot), JobPipelined true: statement kept, NO bind.
+// A scheduler that lets pipelined pods satisfy a role minimum binds the long role alone.
+// variant: 0 plain, 1 a best-effort pod in the short role, 2 Succeeded + Failed pods in the short
+// role, 3 two short roles, 4 control (no Releasing pod, enough idle cpu: everything is bound).
+func specRoles(r *vh.Rng, variant int) sched.CycleSpec {
+	scale := int64(r.Range(1, 2))
+	w := 500 * scale  // cpu of a long-role pod
+	sc := 1500 * scale // cpu of a short-role pod
+	shortMin := int64(r.Range(1, 2))
+	short2 := int64(0)
+	if variant == 3 {
+		short2 = 1
+	}
+	longMin := int64(r.Range(1, 2))
+	min := longMin + shortMin + short2 + int64(r.Range(0, 1)) // sum of role minimums <= minMember
+	nLong := min + int64(r.Range(0, 1))                       // more replicas than the role minimum, >= minMember
+	spec := sched.CycleSpec{PGPhase: map[int64]int64{1: 3, 2: vh.Pick(r, []int64{2, 2, 3, 1})}}
+	spec.Queues = []sched.QueueSpec{{ID: 1, Open: true, Weight: 1}}
+	rm := [][2]int64{{1, longMin}, {2, shortMin}}
+	if short2 > 0 {
+		rm = append(rm, [2]int64{3, short2})
+	}
+	spec.Jobs = []sched.JobSpec{{ID: 1, Queue: 1, Min: 1}, {ID: 2, Queue: 1, Min: min, RoleMin: rm}}
+	// short-role pods that must be placed in this cycle
+	need := shortMin
+	tid := int64(0)
+	next := func() int64 { tid++; return tid }
+	tasks := []sched.TaskSpec{}
+	extra := []sched.TaskSpec{}
+	switch variant {
+	case 1: // one slot of the short role is taken by a best-effort pending pod
+		need = shortMin // still needs shortMin more when shortMin counts only non-BE... keep one pipelined at least
+		spec.Jobs[1].RoleMin[1][1] = shortMin + 1
+		spec.Jobs[1].Min = min + 1
+		extra = append(extra, sched.TaskSpec{Job: 2, Role: 2, Prio: 0, Status: sched.SPending})
+	case 2: // a Succeeded pod holds one slot of the short role, a Failed one holds none
+		spec.Jobs[1].RoleMin[1][1] = shortMin + 1
+		spec.Jobs[1].Min = min + 1
+		extra = append(extra, sched.TaskSpec{Job: 2, Role: 2, Prio: 0, CPU: sc, Status: sched.SSucceeded, Node: 1},
+			sched.TaskSpec{Job: 2, Role: 2, Prio: 0, CPU: sc, Status: sched.SFailed, Node: 1})
+	}
+	nShort := need + short2
+	releasing := nShort * sc
+	twoNodes := r.Chance(1, 2)
+	idle := nLong*w + int64(r.Range(0, 2))*250*scale // slack < sc
+	if variant == 4 {
+		idle = nLong*w + nShort*sc
+		releasing = 0
+	}
+	if twoNodes && releasing > 0 {
+		spec.Nodes = []sched.NodeSpec{{ID: 1, Has: true, CPU: idle, Mem: 64 << 20, Pods: 32},
+			{ID: 2, Has: true, CPU: releasing, Mem: 64 << 20, Pods: 32}}
+		tasks = append(tasks, sched.TaskSpec{ID: next(), Job: 1, Role: 1, CPU: releasing, Status: sched.SReleasing, Node: 2})
+	} else {
+		spec.Nodes = []sched.NodeSpec{{ID: 1, Has: true, CPU: idle + releasing, Mem: 64 << 20, Pods: 32}}
+		if releasing > 0 {
+			// one or two terminating pods
+			if r.Chance(1, 2) && nShort >= 2 {
+				tasks = append(tasks, sched.TaskSpec{ID: next(), Job: 1, Role: 1, CPU: sc, Status: sched.SReleasing, Node: 1},
+					sched.TaskSpec{ID: next(), Job: 1, Role: 1, CPU: releasing - sc, Status: sched.SReleasing, Node: 1})
+			} else {
+				tasks = append(tasks, sched.TaskSpec{ID: next(), Job: 1, Role: 1, CPU: releasing, Status: sched.SReleasing, Node: 1})
+			}
+		} else {
+			tasks = append(tasks, sched.TaskSpec{ID: next(), Job: 1, Role: 1, CPU: 0, Status: sched.SRunning, Node: 1})
+		}
+	}
+	for k := int64(0); k < nLong; k++ {
+		tasks = append(tasks, sched.TaskSpec{ID: next(), Job: 2, Role: 1, Prio: 9, CPU: w, Status: sched.SPending})
+	}
+	for k := int64(0); k < need; k++ {
+		tasks = append(tasks, sched.TaskSpec{ID: next(), Job: 2, Role: 2, Prio: 2, CPU: sc, Status: sched.SPending})
+	}
+	for k := int64(0); k < short2; k++ {
+		tasks = append(tasks, sched.TaskSpec{ID: next(), Job: 2, Role: 3, Prio: 1, CPU: sc, Status: sched.SPending})
+	}
+	for _, e := range extra {
+		e.ID = next()
+		tasks = append(tasks, e)
+	}
+	spec.Tasks = tasks
+	spec.Actions = vh.Pick(r, [][]int64{{1}, {1}, {1, 2}, {2, 1}})
+	return spec
+}
+
+func genRoles(rng *vh.Rng, n int, emit func(id string, sel int, in []int64, kind string, nontrivial bool, desc any)) {
+	names := []string{"plain", "best-effort-in-short-role", "succeeded-failed-in-short-role", "two-short-roles", "control-all-fit"}
+	for i := 0; i < n; i++ {
+		r := rng.Fork()
+		variant := i % 5
+		spec := specRoles(r, variant)
+		emit(fmt.Sprintf("roles-%d", i), 1, spec.Enc(sched.EpsUnits), fmt.Sprintf("roles/%s/actions=%v", names[variant], spec.Actions), true,
+			map[string]any{"directed": "short role only pipelined: " + names[variant], "min": spec.Jobs[1].Min, "roleMin": spec.Jobs[1].RoleMin,
+				"tasks": len(spec.Tasks), "nodes": len(spec.Nodes)})
 	}
 }
 
